@@ -87,7 +87,7 @@ def _clip(v, lo, hi):
     return smax(lo, smin(v, hi))
 
 
-def h_views(ctx, nops, wlens):
+def h_views(ctx, nops, wlens, menus=None):
     from rig.machine_control.machine_controller import (
         MemoryIO, SlicedMemoryIO, TruncationWarning)
 
@@ -101,7 +101,7 @@ def h_views(ctx, nops, wlens):
     OPS = ["seek0", "seek1", "seek2", "read", "readall", "write", "slice",
            "tell", "close", "free"]
     for step in range(nops):
-        op = ctx.pick(OPS)
+        op = ctx.pick(OPS if menus is None else list(menus[step]))
         if op == "free" and step == 0 and nops > 1:
             # freeing first only leaves "everything fails" to look at; that
             # is covered when free comes later
@@ -332,6 +332,13 @@ def units(tier, seed):
                    witnesses=("access", "read-data", "write-data", "sliced",
                               "dead-op", "freed", "truncated-read",
                               "truncated-write")))
+    # three operations starting with a slice: what is done to one view
+    # (closing it, moving it, writing through it) must not show on another
+    us.append(Unit("ops=3 slice first", h_views, dict(
+        nops=3, wlens=(2,),
+        menus=(("slice",), ("close", "seek0", "write"),
+               ("readall", "write", "tell"))),
+        split=4, witnesses=("access", "read-data", "write-data", "dead-op")))
     if tier == "thorough":
         us.append(Unit("ops=3", h_views, dict(nops=3, wlens=(1, 3)), split=5))
         us.append(Unit("ops=2 long writes", h_views,
